@@ -180,6 +180,13 @@ def catalogue():
     cat['string:0:mc:ru'] = ['abc', '€', '\U0001f600', 'Ā']
     cat['string:0:mc:ur'] = ['abc', '€', 'Ā']
     cat['string:0:mc:r'] = ['abc', '€', 'ÿ']
+    # a hard regular expression of the object type comes on top of the restrictions of the data type, never instead of them
+    cat['string:0:lc|[a-zA-Z]+'] = ['abc', 'Abc', 'ABC', 'a1', 'a b']
+    cat['string:0:uc|[a-zA-Z]+'] = ['ABC', 'Abc', 'abc', 'A1']
+    cat['string:0:mc|\\S+'] = ['abc', 'a b', '€', 'Ā', 'x€']
+    cat['string:3:mc:u|[a-z]+'] = ['abc', 'abcd', 'ab1', 'a', 'ABC']
+    cat['string:0:lc:u|[a-zA-Z]+'] = ['abc', 'Abc', 'a1']
+    cat['string:2:uc|[A-Z0-9]*'] = ['AB', 'ABC', 'A1', 'a1', 'A']
     return cat
 
 
